@@ -442,7 +442,7 @@ def captured():
     """run a tool's main() with stdout/stderr captured; the tools' Tee objects re-assign sys.stdout /
     sys.stderr (also from __del__), so both are restored afterwards whatever happened"""
     import gc
-    so, se = sys.stdout, sys.stderr
+    so, se = sys.__stdout__, sys.__stderr__     # a Tee.__del__ firing late may have left a dead StringIO in sys.stdout
     buf = io.StringIO()
     sys.stdout = buf
     sys.stderr = io.StringIO()
